@@ -173,9 +173,10 @@ pub mod c11;
 pub mod net;
 pub mod c17;
 pub mod c18;
+pub mod c19;
 
 pub fn dispatch_all(name: &str, s: &mut ReplaySrc) -> bool {
-    c02::dispatch(name, s) || c04::dispatch(name, s) || c07::dispatch(name, s) || c09::dispatch(name, s) || c10::dispatch(name, s) || c11::dispatch(name, s) || c17::dispatch(name, s) || c18::dispatch(name, s)
+    c02::dispatch(name, s) || c04::dispatch(name, s) || c07::dispatch(name, s) || c09::dispatch(name, s) || c10::dispatch(name, s) || c11::dispatch(name, s) || c17::dispatch(name, s) || c18::dispatch(name, s) || c19::dispatch(name, s)
 }
 pub fn all_names() -> Vec<&'static str> {
     let mut v = Vec::new();
@@ -187,5 +188,6 @@ pub fn all_names() -> Vec<&'static str> {
     v.extend(c11::names());
     v.extend(c17::names());
     v.extend(c18::names());
+    v.extend(c19::names());
     v
 }
